@@ -48,6 +48,8 @@ func NewCache() *Cache { return &Cache{seen: map[vrt.H]int8{}, max: 30000000} }
 // Visit implements vrt.Pruner: a state reached again with at least the deviation cost of an earlier
 // visit has no unexplored futures and the execution is cut there. States on the replayed prefix are
 // never cut (they are the path to the new branch).
+//
+//go:norace
 func (e *Exec) Visit(key vrt.H) bool {
 	if e.cache == nil || len(e.Points) < len(e.Prefix) {
 		return true
@@ -67,7 +69,9 @@ func (e *Exec) Visit(key vrt.H) bool {
 	return true
 }
 
-// Choose implements vrt.Chooser.
+// Choose implements vrt.Chooser. It is called by whichever virtual thread holds the token.
+//
+//go:norace
 func (e *Exec) Choose(kind vrt.Kind, n int, costs []int8, label string) int {
 	c := 0
 	i := len(e.Points)
@@ -83,7 +87,9 @@ func (e *Exec) Choose(kind vrt.Kind, n int, costs []int8, label string) int {
 		e.cost += int(costs[c])
 		if i >= len(e.Prefix) {
 			a := len(e.arena)
-			e.arena = append(e.arena, costs...)
+			for _, c := range costs { // no append(x, y...): runtime.slicecopy is race-instrumented
+				e.arena = append(e.arena, c)
+			}
 			p.Costs = e.arena[a:len(e.arena):len(e.arena)]
 		}
 	}
